@@ -2278,10 +2278,17 @@ protected:
 	constexpr cfloat& convert_unsigned_integer(const Ty& rhs) noexcept {
 		clear();
 		if (0 == rhs) return *this;
+		// an integer that a double holds exactly takes the floating-point path, which rounds to nearest-even
+		// and applies the overflow rule of the configuration (inf, or maxpos when saturating)
+		if (static_cast<uint64_t>(rhs) < (1ull << 53)) return convert_ieee754(static_cast<double>(rhs));
 
 		uint64_t raw = static_cast<uint64_t>(rhs);
 		int msb = static_cast<int>(find_msb(raw)) - 1; // msb > 0 due to zero test above 
 		int exponent = msb;
+		if (exponent > MAX_EXP) { // beyond the largest binade: infinity, or maxpos when saturating
+			if constexpr (isSaturating) { this->maxpos(); } else { setinf(false); }
+			return *this;
+		}
 		// remove the MSB as it represents the hidden bit in the cfloat representation
 		uint64_t hmask = ~(1ull << msb);
 		raw &= hmask;
@@ -2290,6 +2297,10 @@ protected:
 		uint32_t shift = sizeInBits - exponent - 1;
 		raw <<= shift;
 		raw = round<sizeInBits, uint64_t>(raw, exponent);
+		if (exponent > MAX_EXP) { // rounding carried into the binade beyond the largest one
+			if constexpr (isSaturating) { this->maxpos(); } else { setinf(false); }
+			return *this;
+		}
 
 		// construct the target cfloat
 		if constexpr (fbits < (64 - es)) {
@@ -2314,11 +2325,18 @@ protected:
 	constexpr cfloat& convert_signed_integer(const Ty& rhs) noexcept {
 		clear();
 		if (0 == rhs) return *this;
+		// an integer that a double holds exactly takes the floating-point path, which rounds to nearest-even
+		// and applies the overflow rule of the configuration (inf, or maxpos when saturating)
+		if (static_cast<long long>(rhs) > -(1ll << 53) && static_cast<long long>(rhs) < (1ll << 53)) return convert_ieee754(static_cast<double>(rhs));
 		bool s = (rhs < 0);
 		uint64_t raw = s ? (0ull - static_cast<uint64_t>(rhs)) : static_cast<uint64_t>(rhs); // -rhs is undefined for the most negative value
 
 		int msb = static_cast<int>(find_msb(raw)) - 1; // msb > 0 due to zero test above 
 		int exponent = msb;
+		if (exponent > MAX_EXP) { // beyond the largest binade: infinity, or maxpos/maxneg when saturating
+			if constexpr (isSaturating) { if (s) this->maxneg(); else this->maxpos(); } else { setinf(s); }
+			return *this;
+		}
 		// remove the MSB as it represents the hidden bit in the cfloat representation
 		uint64_t hmask = ~(1ull << msb);
 		raw &= hmask;
@@ -2328,6 +2346,10 @@ protected:
 		uint32_t shift = sizeInBits - exponent - 1;
 		raw <<= shift;
 		raw = round<sizeInBits, uint64_t>(raw, exponent);
+		if (exponent > MAX_EXP) { // rounding carried into the binade beyond the largest one
+			if constexpr (isSaturating) { if (s) this->maxneg(); else this->maxpos(); } else { setinf(s); }
+			return *this;
+		}
 
 		// construct the target cfloat
 		if constexpr (fbits < (64 - es)) {
@@ -2902,9 +2924,9 @@ protected:
 			if (guard) {
 				if (lsb && (!round && !sticky)) ++raw; // round to even
 				if (round || sticky) ++raw;
-				if (raw == (1ull << fbits)) { // overflow
+				if (raw == (1ull << fbits)) { // the fraction carried into the hidden bit: next binade, fraction 0
 					++exponent;
-					raw >>= 1u;
+					raw = 0;
 				}
 			}
 		}
